@@ -76,7 +76,15 @@ def canon(o, mac):
             id_arms = [norm(a["pat"]) for a in it["arms"] if norm(a["on"]) == "id" and norm(a["pat"]) != "_"]
             res_arms = [a for a in it["arms"] if norm(a["on"]) == "result"]
             if len(res_arms) != 2 * len(id_arms):
-                reply["?shape"] = (len(id_arms), len(res_arms))
+                # another layout than "one Ok and one Err arm per id": the arms cannot be attributed to ids from the flat list;
+                # keep the order-insensitive multiset of (outcome, handler) pairs (the compiled twins decide the routing itself)
+                flat = []
+                for a in res_arms:
+                    pat, body = norm(a["pat"]), norm(a["body"])
+                    cm = re.search(r"::new\(\)\.(%s)\(" % ID, body)
+                    flat.append(("ok" if "SubMsgResult::Ok" in pat else "err", cm.group(1) if cm else "pass"))
+                reply["?arms"] = sorted(flat)
+                id_arms = []
             for k, cur in enumerate(id_arms):
                 reply[cur] = {}
                 for a in res_arms[2 * k: 2 * k + 2]:
